@@ -34,6 +34,43 @@ def validate(v, d, scen, traces):
     return acc
 
 
+def proof_list(v, d, seed, tier):
+    """C15, configuration at start-up: config.DecodeProofList (config/util.go) on every case of ProofList.tla"""
+    drv = vlib.build("gatewaydrv")
+    cases, w = vlib.tlc_enumerate(d, "ProofListMC.tla", "ProofListMC.cfg", timeout=300)
+    frames = [b[0]["frame"] for b in cases]
+    reps = 2 if tier == "quick" else 10
+    scen = [dict(sc=80000 + i, seed=seed * 7919 + 3 + i, steps=[dict(a="ProofList", frame=f) for f in frames[i::4]], opt=dict(reps=reps)) for i in range(4)]
+    sf, tf = os.path.join(d, "pl.json"), os.path.join(d, "pl.ndjson")
+    json.dump(scen, open(sf, "w"))
+    vlib.run_driver(drv, sf, tf, ["-workers", "4", "-stall", "60"], timeout=600)
+    traces = vlib.read_traces(tf)
+    dead = [t for t in traces if t.get("dead")]
+    if dead:
+        raise vlib.Machinery("driver could not run %d proof-list scenarios: %s" % (len(dead), dead[0].get("note")))
+    pending = [(t["sc"], t["ev"]) for t in traces]
+    n = sum(len(ev) for _, ev in pending)
+    rounds = 0
+    while pending and rounds < 40:
+        rounds += 1
+        acc, hw, stats = vlib.tlc_validate(d, "ProofListTrace.tla", "ProofListTrace.cfg", [ev for _, ev in pending], timeout=600)
+        nxt = []
+        for i, (sc, ev) in enumerate(pending):
+            if i in acc:
+                continue
+            k = hw[i]
+            e = ev[k] if k < len(ev) else {}
+            v.classify(dict(cause="proof_list", input=e.get("input")),
+                       "proof list %r (case %s): DecodeProofList gave ok=%s %s%s" % (e.get("input"), json.dumps(e.get("frame")), e.get("ok"), e.get("pairs"), (" panic " + e["panic"]) if e.get("panic") else ""),
+                       dict(scenario=dict(sc=sc, seed=seed, steps=[dict(a="ProofList", frame=e.get("frame"))], opt=dict(reps=3, kind="prooflist")), event=e))
+            if k + 1 < len(ev):
+                nxt.append((sc, ev[k + 1:]))
+        pending = nxt
+    log("proof list: %d cases, %d decodes" % (len(frames), n))
+    v.cov["proof_list_cases"] = len(frames)
+    return n
+
+
 def keys_through_keeper(v, d, seed, tier):
     """C06 (and the keeper half of C05): the real wallet behind the real keeper.  Request sequences with restarts; the
     ordinal and key in the wallet, in the keeper's space id and in the plot file names must agree, a restarted node
@@ -103,7 +140,7 @@ def run(prop, tier, seed):
         total += len(validate(v, d, part, traces))
         if lo == 0 and traces:
             v.cov["samples"].append([desc(e) + " -> sel " + str([(s["o"], s["bl"], s["d"]) for s in e["sel"]][:8]) for e in traces[0]["ev"]])
-    v.cov["evaluations"] = len(scen)
+    v.cov["evaluations"] = len(scen) + proof_list(v, d, seed, tier)
     v.cov["distinct_nontrivial"] = sum(1 for s in scen if len({x["a"] for x in s["steps"]}) >= 3)
     v.cov["traces_accepted"] = total
     v.cov["rule"] = ("sequences of 10 requests generated by TLC (-simulate, seeded): BySize / ByPath / ByBitLength with targets at, just below and "
@@ -119,6 +156,18 @@ def replay(prop, path, seed):
     vlib.prep_specs(d)
     drv = vlib.build("capdrv")
     r = json.load(open(path))["replay"]
+    if r["scenario"]["steps"] and r["scenario"]["steps"][0].get("a") == "ProofList":
+        gdrv = vlib.build("gatewaydrv")
+        sf, tf = os.path.join(d, "pl.json"), os.path.join(d, "pl.ndjson")
+        json.dump([r["scenario"]], open(sf, "w"))
+        vlib.run_driver(gdrv, sf, tf, ["-workers", "1"])
+        traces = vlib.read_traces(tf)
+        acc, hw, stats = vlib.tlc_validate(d, "ProofListTrace.tla", "ProofListTrace.cfg", [t["ev"] for t in traces], timeout=300)
+        if 0 not in acc:
+            e = traces[0]["ev"][hw[0]] if hw[0] < len(traces[0]["ev"]) else {}
+            v.classify(dict(cause="proof_list", input=e.get("input")), "replay: proof list %r gave ok=%s %s" % (e.get("input"), e.get("ok"), e.get("pairs")), dict(scenario=r["scenario"], event=e))
+        v.cov.update(states=1, transitions=1, evaluations=1, distinct_nontrivial=1, samples=["replay"])
+        return v.finish()
     scen = [r["scenario"]]
     sf, tf = os.path.join(d, "scen.json"), os.path.join(d, "trace.ndjson")
     json.dump(scen, open(sf, "w"))
